@@ -325,6 +325,13 @@ class Ctx:
                 locprog.regenerate()
             except Exception as e:  # the merged lookup is no longer in the form the parameters describe
                 self.broken_obligation(f'translator (merged lookup): {type(e).__name__}: {e}')
+        if 'AeicModel.FlightLookup' in deps:
+            try:
+                from . import fidprog
+
+                fidprog.regenerate()
+            except Exception as e:  # the flight-identifier lookup is no longer in the form the parameters describe
+                self.broken_obligation(f'translator (flight lookup): {type(e).__name__}: {e}')
         if 'AeicModel.Generated.AddProg' in deps:
             try:
                 from . import addprog
